@@ -405,6 +405,60 @@ def run_utc_props(case):
         ev.add("dtstamp", w)
         if prop_line(ev.to_ical(), "DTSTAMP") != [f"DTSTAMP:{fmt(w)}Z"]:
             c.fail("naive-utc-property", ("naive", fmt(w)), f"DTSTAMP:{fmt(w)}Z", prop_line(ev.to_ical(), "DTSTAMP"))
+    # both occurrences of a repeated wall time (the zone's own latest fold before 2030), each tzinfo implementation's way
+    # of saying which one is meant (fold attribute / is_dst), with and without microseconds
+    flavour = "zoneinfo" if provider == "zoneinfo" else "pytz"
+    folds = [(t, o1, o2) for t, o1, o2 in transitions_for(key, flavour, 1990, 2030) if o2 < o1]
+    if folds:
+        t, o1, o2 = folds[-1]
+        wall = t + timedelta(seconds=o2) + timedelta(seconds=(o1 - o2) // 2)  # inside the repeated interval
+        wall = wall.replace(microsecond=0)
+        for second in (False, True):
+            inst = wall - timedelta(seconds=o2 if second else o1)  # naive UTC
+            want = fmt(inst) + "Z"
+            for source in (("zoneinfo", "dateutil") if provider == "zoneinfo" else ("pytz", "zoneinfo")):
+                for micro in (0, 250000):
+                    w2 = wall.replace(microsecond=micro)
+                    try:
+                        if source == "pytz":
+                            import pytz
+                            val = pytz.timezone(key).localize(w2, is_dst=not second)
+                            if val.utcoffset() != timedelta(seconds=o2 if second else o1):
+                                continue  # is_dst does not select by order for this zone (negative DST): skip
+                        else:
+                            mk2 = make_source(source, key)
+                            if mk2 is None:
+                                continue
+                            val = mk2(w2).replace(fold=1 if second else 0)
+                            if val.utcoffset() != timedelta(seconds=o2 if second else o1):
+                                continue  # this tz implementation reads the table differently here: not the library's business
+                    except Exception:  # noqa: BLE001
+                        continue
+                    for how in ("add", "descriptor"):
+                        ev = Event()
+                        al = Alarm()
+                        c.n += 1
+                        c.trans += 1
+                        try:
+                            if how == "add":
+                                ev.add("dtstamp", val)
+                                ev.add("created", val)
+                                ev.add("last-modified", val)
+                            else:
+                                ev.DTSTAMP = val
+                                ev.LAST_MODIFIED = val
+                                al.ACKNOWLEDGED = val
+                                ev.add_component(al)
+                            data = ev.to_ical()
+                        except Exception as e:  # noqa: BLE001
+                            c.fail("utc-property-raises", (how, source, fmt(wall), second, micro), "bytes", f"{type(e).__name__}: {e}")
+                            continue
+                        names = ("DTSTAMP", "CREATED", "LAST-MODIFIED") if how == "add" else ("DTSTAMP", "LAST-MODIFIED", "ACKNOWLEDGED")
+                        for nme in names:
+                            ln = prop_line(data, nme)
+                            if ln != [f"{nme}:{want}"]:
+                                c.fail("utc-property-in-a-fold-not-the-instant-meant", (how, source, nme, fmt(wall), "second" if second else "first", micro),
+                                       f"{nme}:{want}", ln)
     return {"n": c.n, "nstates": c.n, "nnontrivial": c.n, "trans": c.trans, "traces": c.n, "state": ("utc", provider, key),
             "fails": c.fails, "outcome": "ok" if not c.fails else "FAIL"}
 
